@@ -17,7 +17,10 @@ PROPS["C01"] = dict(
         "uuid4 never returns the name suffix of an existing study (assume_after in create_new_study)",
         "nested JSON-like attribute values (lists/dicts inside Any) are treated as immutable by deepcopy",
     ],
-    not_covered=["RDBStorage (SQLAlchemy/SQL semantics)", "gRPC transport and protobuf containers", "Redis backend"],
+    not_covered=["RDBStorage and cached RDB (SQLAlchemy/SQL semantics): only the BOUNDED differential stand-in bounded.storage_lattice "
+                 "(random finite call histories replayed on sqlite and compared with the proved in-memory storage)",
+                 "gRPC transport and protobuf containers", "Redis backend", "MySQL/PostgreSQL dialects"],
+    bounded=["bounded.storage_lattice"],
 )
 
 
